@@ -110,6 +110,13 @@ Section TZ.
       + intros e1 w1. apply ev_reg_mono.
       + done.
       + done.
+    - (* a job suspends on two events (select): its waker is registered with both *)
+      intros e0 He. exists e0. left. eapply (tc_plain s _ a [_] _ _ e0); [exact Hst|solve_stacks| | | | | |exact He].
+      + intros fr Hin. by right.
+      + intros fr Hin. apply elem_of_list_singleton in Hin as ->. done.
+      + intros e3 w3 H3 H4. destruct (ev_reg_mono s e1 w e3 w3 H3 H4) as [H5 H6]. exact (ev_reg_mono _ e2 w e3 w3 H5 H6).
+      + done.
+      + done.
     - (* the task waker is called *)
       intros e0 He. exists e0. destruct c as [|c].
       + right. apply np_pos_fsat. exists a, (FUnpark 0). split; [|done]. eapply fsat_new; [exact Hst|solve_stacks|left].
